@@ -197,8 +197,11 @@ def _rand(args):
     # orthonormal factors from the exact library, random positive spectrum (clusters / wide range)
     U = E.ulib(m)[int(rng.integers(0, len(E.ulib(m))))][1]
     V = E.ulib(n)[int(rng.integers(0, len(E.ulib(n))))][1]
-    kind = tid % 4
-    if kind == 0:
+    kind = tid % 5
+    if kind == 4:
+        # gapped: a cluster plus one small singular value (ratio 2^-12): the residual plateaus while the small value converges
+        s = sorted([2.0] * max(kmin - 1, 0) + [2.0 ** -11], reverse=True)[:kmin] if kmin > 1 else [1.0]
+    elif kind == 0:
         s = sorted(rng.random(kmin) + 0.5, reverse=True)
     elif kind == 1:
         s = sorted([1.0 + 1e-3 * i for i in range(kmin)], reverse=True)           # cluster
